@@ -86,4 +86,50 @@ theorem rW_ignore {a : Nat} (h1 : 0xff00 ≤ a) (h2 : a < 0xff80) (h3 : ¬ (0xff
   generalize route W a = h at hr
   cases h <;> simp [inRange] at hr ⊢ <;> omega
 
+
+/-! ### the handler of each implemented register -/
+
+theorem rR_joyp : route R 0xff00 = .joyp := by decide +kernel
+theorem rW_joyp : route W 0xff00 = .joyp := by decide +kernel
+theorem rR_sb : route R 0xff01 = .sb := by decide +kernel
+theorem rW_sb : route W 0xff01 = .sb := by decide +kernel
+theorem rR_sc : route R 0xff02 = .sc := by decide +kernel
+theorem rW_sc : route W 0xff02 = .sc := by decide +kernel
+theorem rR_div : route R 0xff04 = .div := by decide +kernel
+theorem rW_div : route W 0xff04 = .div := by decide +kernel
+theorem rR_tima : route R 0xff05 = .tima := by decide +kernel
+theorem rW_tima : route W 0xff05 = .tima := by decide +kernel
+theorem rR_tma : route R 0xff06 = .tma := by decide +kernel
+theorem rW_tma : route W 0xff06 = .tma := by decide +kernel
+theorem rR_tac : route R 0xff07 = .tac := by decide +kernel
+theorem rW_tac : route W 0xff07 = .tac := by decide +kernel
+theorem rR_ifl : route R 0xff0f = .ifl := by decide +kernel
+theorem rW_ifl : route W 0xff0f = .ifl := by decide +kernel
+theorem rR_lcdc : route R 0xff40 = .lcdc := by decide +kernel
+theorem rW_lcdc : route W 0xff40 = .lcdc := by decide +kernel
+theorem rR_stat : route R 0xff41 = .stat := by decide +kernel
+theorem rW_stat : route W 0xff41 = .stat := by decide +kernel
+theorem rR_scy : route R 0xff42 = .scy := by decide +kernel
+theorem rW_scy : route W 0xff42 = .scy := by decide +kernel
+theorem rR_scx : route R 0xff43 = .scx := by decide +kernel
+theorem rW_scx : route W 0xff43 = .scx := by decide +kernel
+theorem rR_ly : route R 0xff44 = .ly := by decide +kernel
+theorem rW_ly : route W 0xff44 = .ly := by decide +kernel
+theorem rR_lyc : route R 0xff45 = .lyc := by decide +kernel
+theorem rW_lyc : route W 0xff45 = .lyc := by decide +kernel
+theorem rR_dma : route R 0xff46 = .dma := by decide +kernel
+theorem rW_dma : route W 0xff46 = .dma := by decide +kernel
+theorem rR_bgp : route R 0xff47 = .bgp := by decide +kernel
+theorem rW_bgp : route W 0xff47 = .bgp := by decide +kernel
+theorem rR_obp0 : route R 0xff48 = .obp0 := by decide +kernel
+theorem rW_obp0 : route W 0xff48 = .obp0 := by decide +kernel
+theorem rR_obp1 : route R 0xff49 = .obp1 := by decide +kernel
+theorem rW_obp1 : route W 0xff49 = .obp1 := by decide +kernel
+theorem rR_wy : route R 0xff4a = .wy := by decide +kernel
+theorem rW_wy : route W 0xff4a = .wy := by decide +kernel
+theorem rR_wx : route R 0xff4b = .wx := by decide +kernel
+theorem rW_wx : route W 0xff4b = .wx := by decide +kernel
+theorem rR_ie : route R 0xffff = .ie := by decide +kernel
+theorem rW_ie : route W 0xffff = .ie := by decide +kernel
+
 end Tetro.BusBasic
